@@ -254,66 +254,6 @@ theorem Ext.del (fs : Fs) (p : Path) : Ext fs (fs.del p) [p] := by
   simp only [List.mem_singleton] at hq
   simp [get_del, hq]
 
-/-- the invariant of a contained run: the destination `T` and its ancestors are directories, and the
-symbolic links at or below `T` are at the positions `S` -/
-structure Inv (T : Path) (fs : Fs) (S : List Path) : Prop where
-  dirs : ∀ k, 0 < k → k ≤ T.length → ∃ m, fs.get (T.take k) = some (.dir m)
-  links : ∀ q t, fs.get q = some (.symlink t) → T <+: q → q ∈ S
-
-theorem Inv.mono {T fs S S'} (h : Inv T fs S) (hs : ∀ q ∈ S, q ∈ S') : Inv T fs S' :=
-  ⟨h.dirs, fun q t hq hT => hs q (h.links q t hq hT)⟩
-
-/-- replacing / creating a node that is not a link, never replacing a directory by a non-directory -/
-theorem Inv.set_nonlink {T fs S} (h : Inv T fs S) (q : Path) (n : Node)
-    (hn : n.isSymlink = false) (hd : ∀ m, fs.get q = some (.dir m) → n.isDir = true) : Inv T (fs.set q n) S := by
-  refine ⟨fun k hk hk2 => ?_, fun q' t hq' hT => ?_⟩
-  · obtain ⟨m, hm⟩ := h.dirs k hk hk2
-    rw [get_set]
-    by_cases he : T.take k = q
-    · subst he
-      have := hd m hm
-      cases n with
-      | dir m' => exact ⟨m', by simp⟩
-      | file => simp [Node.isDir] at this
-      | symlink => simp [Node.isDir] at this
-    · simp [he, hm]
-  · rw [get_set] at hq'
-    by_cases he : q' = q
-    · subst he
-      simp at hq'
-      subst hq'
-      simp [Node.isSymlink] at hn
-    · simp [he] at hq'
-      exact h.links q' t hq' hT
-
-theorem Inv.set_link {T fs S} (h : Inv T fs S) (q : Path) (t : Bytes) (hv : fs.get q = none) :
-    Inv T (fs.set q (.symlink t)) (q :: S) := by
-  refine ⟨fun k hk hk2 => ?_, fun q' t' hq' hT => ?_⟩
-  · obtain ⟨m, hm⟩ := h.dirs k hk hk2
-    rw [get_set]
-    by_cases he : T.take k = q
-    · subst he; rw [hv] at hm; cases hm
-    · simp [he, hm]
-  · rw [get_set] at hq'
-    by_cases he : q' = q
-    · subst he; simp
-    · simp [he] at hq'
-      exact List.mem_cons_of_mem _ (h.links q' t' hq' hT)
-
-theorem Inv.del {T fs S} (h : Inv T fs S) (q : Path) (n : Node) (hq : fs.get q = some n) (hd : n.isDir = false) :
-    Inv T (fs.del q) S := by
-  refine ⟨fun k hk hk2 => ?_, fun q' t' hq' hT => ?_⟩
-  · obtain ⟨m, hm⟩ := h.dirs k hk hk2
-    rw [get_del]
-    by_cases he : T.take k = q
-    · subst he; rw [hq] at hm; injection hm with hm; subst hm; simp [Node.isDir] at hd
-    · simp [he, hm]
-  · rw [get_del] at hq'
-    by_cases he : q' = q
-    · simp [he] at hq'
-    · simp [he] at hq'
-      exact h.links q' t' hq' hT
-
 theorem take_append_le {α} (T r : List α) (k : Nat) (h : k ≤ T.length) : (T ++ r).take k = T.take k := by
   rw [List.take_append]
   have : k - T.length = 0 := by omega
@@ -322,173 +262,7 @@ theorem take_append_le {α} (T r : List α) (k : Nat) (h : k ≤ T.length) : (T 
 theorem take_append_ge {α} (T r : List α) (k : Nat) (h : T.length ≤ k) : (T ++ r).take k = T ++ r.take (k - T.length) := by
   rw [List.take_append, List.take_of_length_le h]
 
-/-- under the invariant, a path `T ++ r` without `..` whose followed part is not at or below a link
-resolves to itself -/
-theorem resolve_under {T fs S} (h : Inv T fs S) (fl : Bool) (r : List Name)
-    (hT : ∀ c ∈ T, Normal c) (hr : ∀ c ∈ r, Normal c)
-    (hp : ∀ s ∈ S, ¬ s <+: T ++ r.dropLast)
-    (hl : fl = true → ∀ s ∈ S, ¬ s <+: T ++ r)
-    {q} (hq : resolve fs fl (T ++ r) = .ok q) : q = T ++ r := by
-  refine resolve_exact fs fl (T ++ r) ?_ ?_ ?_ hq
-  · intro c hc
-    rcases List.mem_append.mp hc with hc | hc
-    · exact hT c hc
-    · exact hr c hc
-  · intro k hk hk2 t ht
-    by_cases hle : k ≤ T.length
-    · rw [take_append_le T r k hle] at ht
-      obtain ⟨m, hm⟩ := h.dirs k hk hle
-      rw [hm] at ht; cases ht
-    · have hge : T.length ≤ k := by omega
-      rw [take_append_ge T r k hge] at ht
-      have hmem := h.links _ t ht (List.prefix_append _ _)
-      refine hp _ hmem ?_
-      rw [List.prefix_append_right_inj]
-      simp only [List.length_append] at hk2
-      rw [List.dropLast_eq_take]
-      have : r.take (k - T.length) = (r.take (r.length - 1)).take (k - T.length) := by
-        rw [List.take_take]; congr 1; omega
-      rw [this]
-      exact List.take_prefix _ _
-  · intro hfl t ht
-    have hmem := h.links _ t ht (List.prefix_append _ _)
-    exact hl hfl _ hmem (List.prefix_refl _)
 
-/-- a step of a contained run: invariant re-established, all changes logged and under `T` -/
-def Good (T : Path) (fs fs' : Fs) (S' : List Path) : Prop :=
-  Inv T fs' S' ∧ ∃ L, Ext fs fs' L ∧ ∀ q ∈ L, T <+: q
-
-theorem Good.refl {T fs S} (h : Inv T fs S) : Good T fs fs S :=
-  ⟨h, [], Ext.refl fs, by simp⟩
-
-theorem Good.trans {T a b c S1 S2} (h1 : Good T a b S1) (h2 : Good T b c S2) : Good T a c S2 := by
-  obtain ⟨_, L1, e1, u1⟩ := h1
-  obtain ⟨i2, L2, e2, u2⟩ := h2
-  refine ⟨i2, L2 ++ L1, e1.trans e2, fun q hq => ?_⟩
-  rcases List.mem_append.mp hq with hq | hq
-  · exact u2 q hq
-  · exact u1 q hq
-
-theorem Good.mono {T a b S S'} (h : Good T a b S) (hs : ∀ q ∈ S, q ∈ S') : Good T a b S' :=
-  ⟨h.1.mono hs, h.2⟩
-
-theorem prefix_dropLast_append {T r s : List Name} (h : s <+: T ++ r.dropLast) : s <+: T ++ r := by
-  refine h.trans ?_
-  rw [List.prefix_append_right_inj]
-  exact List.dropLast_prefix r
-
-section ops
-variable {T : Path} {S : List Path} (hT : ∀ c ∈ T, Normal c)
-include hT
-
-theorem mkdir_good {fs fs' : Fs} (hi : Inv T fs S) {r : List Name} (hr : ∀ c ∈ r, Normal c)
-    (hp : ∀ s ∈ S, ¬ s <+: T ++ r.dropLast) (h : mkdir fs (T ++ r) = .ok fs') : Good T fs fs' S := by
-  obtain ⟨q, hq, hv, rfl⟩ := mkdir_ok h
-  have := resolve_under hi false r hT hr hp (by simp) hq
-  subst this
-  exact ⟨hi.set_nonlink _ _ rfl (fun _ _ => rfl), [T ++ r], Ext.set _ _ _, by simp⟩
-
-theorem fileCreate_good {fs fs' : Fs} (hi : Inv T fs S) {r : List Name} (hr : ∀ c ∈ r, Normal c)
-    (hl : ∀ s ∈ S, ¬ s <+: T ++ r) {c} (h : fileCreate fs (T ++ r) c = .ok fs') : Good T fs fs' S := by
-  obtain ⟨q, m, hq, rfl, hv⟩ := fileCreate_ok h
-  have := resolve_under hi true r hT hr (fun s hs hh => hl s hs (prefix_dropLast_append hh)) (fun _ => hl) hq
-  subst this
-  refine ⟨hi.set_nonlink _ _ rfl (fun m' hm' => ?_), [T ++ r], Ext.set _ _ _, by simp⟩
-  rcases hv with ⟨hv, _⟩ | ⟨c0, hv⟩ <;> rw [hv] at hm' <;> cases hm'
-
-theorem setPerm_good {fs fs' : Fs} (hi : Inv T fs S) {r : List Name} (hr : ∀ c ∈ r, Normal c)
-    (hl : ∀ s ∈ S, ¬ s <+: T ++ r) {p} (h : setPerm fs (T ++ r) p = .ok fs') : Good T fs fs' S := by
-  obtain ⟨q, hq, hv⟩ := setPerm_ok h
-  have := resolve_under hi true r hT hr (fun s hs hh => hl s hs (prefix_dropLast_append hh)) (fun _ => hl) hq
-  subst this
-  rcases hv with ⟨m, hv, rfl⟩ | ⟨c, m, hv, rfl⟩
-  · exact ⟨hi.set_nonlink _ _ rfl (fun _ _ => rfl), [T ++ r], Ext.set _ _ _, by simp⟩
-  · refine ⟨hi.set_nonlink _ _ rfl (fun m' hm' => ?_), [T ++ r], Ext.set _ _ _, by simp⟩
-    rw [hv] at hm'; cases hm'
-
-theorem unlink_good {fs fs' : Fs} (hi : Inv T fs S) {r : List Name} (hr : ∀ c ∈ r, Normal c)
-    (hp : ∀ s ∈ S, ¬ s <+: T ++ r.dropLast) (h : unlink fs (T ++ r) = .ok fs') : Good T fs fs' S := by
-  obtain ⟨q, n, hq, hv, hd, rfl⟩ := unlink_ok h
-  have := resolve_under hi false r hT hr hp (by simp) hq
-  subst this
-  exact ⟨hi.del _ n hv hd, [T ++ r], Ext.del _ _, by simp⟩
-
-theorem symlink_good {fs fs' : Fs} (hi : Inv T fs S) {r : List Name} (hr : ∀ c ∈ r, Normal c)
-    (hp : ∀ s ∈ S, ¬ s <+: T ++ r.dropLast) {t} (h : symlink fs (T ++ r) t = .ok fs') :
-    Good T fs fs' ((T ++ r) :: S) := by
-  obtain ⟨q, hq, hv, _, rfl⟩ := symlink_ok h
-  have := resolve_under hi false r hT hr hp (by simp) hq
-  subst this
-  exact ⟨hi.set_link _ t hv, [T ++ r], Ext.set _ _ _, by simp⟩
-
-theorem mkdir_T_not_enoent {fs : Fs} (hi : Inv T fs S) (hne : T ≠ []) : mkdir fs T ≠ .error .ENOENT := by
-  have hres : resolve fs false T = .ok T := resolve_dirs fs false T hT (fun k hk hk2 => hi.dirs k hk hk2)
-  obtain ⟨m, hm⟩ := hi.dirs T.length (by cases T with | nil => exact absurd rfl hne | cons => simp) (Nat.le_refl _)
-  simp only [List.take_length] at hm
-  unfold mkdir
-  rw [hres]
-  simp only [hm]
-  intro h; cases h
-
-theorem cdaRev_good : ∀ (rev : List Name) (r : List Name) (fs fs' : Fs), rev.reverse = T ++ r → Inv T fs S →
-    (∀ c ∈ r, Normal c) → (∀ s ∈ S, ¬ s <+: T ++ r) → createDirAllRev fs rev = .ok fs' → Good T fs fs' S := by
-  intro rev
-  induction rev with
-  | nil =>
-    intro r fs fs' _ hi _ _ h
-    unfold createDirAllRev at h
-    split at h
-    · injection h with h; subst h; exact Good.refl hi
-    · cases h
-  | cons c rp ih =>
-    intro r fs fs' hrev hi hr hl h
-    have hp : ∀ s ∈ S, ¬ s <+: T ++ r.dropLast := fun s hs hh => hl s hs (prefix_dropLast_append hh)
-    unfold createDirAllRev at h
-    rw [hrev] at h
-    split at h
-    · rename_i fs1 hm
-      injection h with h; subst h
-      exact mkdir_good hT hi hr hp hm
-    · rename_i hm
-      -- ENOENT: the parent is created first
-      rcases List.eq_nil_or_concat r with hr0 | ⟨r', c', hr1⟩
-      · subst hr0
-        exfalso
-        simp only [List.append_nil] at hm hrev
-        have hne : T ≠ [] := by
-          intro h0; rw [h0] at hrev; simp at hrev
-        exact mkdir_T_not_enoent hT hi hne hm
-      · rw [List.concat_eq_append] at hr1
-        subst hr1
-        have hrp : rp.reverse = T ++ r' := by
-          simp only [List.reverse_cons] at hrev
-          rw [← List.append_assoc] at hrev
-          exact (List.append_inj' hrev rfl).1
-        have hr' : ∀ c ∈ r', Normal c := fun c hc => hr c (by simp [hc])
-        have hl' : ∀ s ∈ S, ¬ s <+: T ++ r' := fun s hs hh => hl s hs (by
-          refine hh.trans ?_
-          rw [List.prefix_append_right_inj]
-          exact List.prefix_append _ _)
-        split at h
-        · cases h
-        · rename_i fs1 h1
-          have g1 := ih r' fs fs1 hrp hi hr' hl' h1
-          split at h
-          · rename_i fs2 h2
-            injection h with h; subst h
-            exact g1.trans (mkdir_good hT g1.1 hr hp h2)
-          · split at h
-            · injection h with h; subst h; exact g1
-            · cases h
-    · split at h
-      · injection h with h; subst h; exact Good.refl hi
-      · cases h
-
-theorem createDirAll_good {fs fs' : Fs} (hi : Inv T fs S) {r : List Name} (hr : ∀ c ∈ r, Normal c)
-    (hl : ∀ s ∈ S, ¬ s <+: T ++ r) (h : createDirAll fs (T ++ r) = .ok fs') : Good T fs fs' S :=
-  cdaRev_good hT (T ++ r).reverse r fs fs' (List.reverse_reverse _) hi hr hl h
-
-end ops
 /-- parents are directories and the last component is not a link that would be followed: the walk
 ends at the path itself -/
 theorem walkComps_parents (fs : Fs) (follow) (fl : Bool) : ∀ (cs : List Name) (cur : Path),
